@@ -444,7 +444,7 @@ class ExtendedNonlocalGame:
                 mat[x_in, y_in] = cvxpy.Variable(
                     (alice_out * referee_dim, bob_out * referee_dim),
                     name=f"K(a, b | {x_in}, {y_in})",
-                    hermitian=True,
+                    complex=True,
                 )
 
         p_win = cvxpy.Constant(0)
@@ -461,6 +461,17 @@ class ExtendedNonlocalGame:
                         )
 
         npa = npa_constraints(mat, k, referee_dim)
+        # Each block K(a, b | x, y) is a Hermitian operator on the referee's space; the full
+        # (alice_out * referee_dim) x (bob_out * referee_dim) matrix of blocks is not Hermitian in general.
+        for x_in in range(alice_in):
+            for y_in in range(bob_in):
+                for a_out in range(alice_out):
+                    for b_out in range(bob_out):
+                        block = mat[x_in, y_in][
+                            a_out * referee_dim : (a_out + 1) * referee_dim,
+                            b_out * referee_dim : (b_out + 1) * referee_dim,
+                        ]
+                        npa.append(block == block.H)
         objective = cvxpy.Maximize(cvxpy.real(p_win))
         problem = cvxpy.Problem(objective, npa)
         cs_val = problem.solve()
